@@ -227,9 +227,29 @@ func (ex *Exec) mutexOf(v Value) *mutexState {
 }
 
 func (ex *Exec) preemptPoint(fr *frame) {
-	if ex.cfg.Preemptive && fr != nil && ex.cfg.Policy.PreemptIn(fr.fn) {
+	if ex.cfg.Preemptive && fr != nil && ex.preemptInStack(fr) {
 		ex.yield()
 	}
+}
+
+// preemptInStack: the function, or any of its (dynamic) callers, is listed in PreemptFns - a listed
+// function is pre-emptible together with everything it calls.
+func (ex *Exec) preemptInStack(fr *frame) bool {
+	if len(ex.cfg.Policy.PreemptFns) == 0 {
+		return true
+	}
+	if ex.cfg.Policy.PreemptIn(fr.fn) {
+		return true
+	}
+	if ex.isHarnessFn(fr.fn) {
+		return false // doubles called from a listed function are not pre-emptible themselves
+	}
+	for f := fr.caller; f != nil; f = f.caller {
+		if ex.cfg.Policy.PreemptIn(f.fn) {
+			return true
+		}
+	}
+	return false
 }
 
 // errors.Is semantics over interpreted error values.
@@ -746,6 +766,46 @@ func BaseIntrinsics() map[string]IntrinsicFn {
 			}
 			return ex.ts.False()
 		}
+	}
+
+	// typed atomics (sync/atomic.Uint64 etc.): struct{ _ noCopy; [_ align64;] v T } - the value is
+	// the LAST field
+	typedCell := func(ex *Exec, v Value) Value {
+		p := v.(*Value)
+		if p == nil {
+			ex.crash("nil pointer dereference (atomic)")
+		}
+		st := (*p).(Struct)
+		return &st[len(st)-1]
+	}
+	for _, w := range []string{"Int32", "Int64", "Uint32", "Uint64"} {
+		w := w
+		m["(*sync/atomic."+w+").Load"] = func(ex *Exec, fr *frame, a []Value) Value {
+			return m["sync/atomic.Load"+w](ex, fr, []Value{typedCell(ex, a[0])})
+		}
+		m["(*sync/atomic."+w+").Store"] = func(ex *Exec, fr *frame, a []Value) Value {
+			return m["sync/atomic.Store"+w](ex, fr, []Value{typedCell(ex, a[0]), a[1]})
+		}
+		m["(*sync/atomic."+w+").Add"] = func(ex *Exec, fr *frame, a []Value) Value {
+			return m["sync/atomic.Add"+w](ex, fr, []Value{typedCell(ex, a[0]), a[1]})
+		}
+		m["(*sync/atomic."+w+").Swap"] = func(ex *Exec, fr *frame, a []Value) Value {
+			return m["sync/atomic.Swap"+w](ex, fr, []Value{typedCell(ex, a[0]), a[1]})
+		}
+		m["(*sync/atomic."+w+").CompareAndSwap"] = func(ex *Exec, fr *frame, a []Value) Value {
+			return m["sync/atomic.CompareAndSwap"+w](ex, fr, []Value{typedCell(ex, a[0]), a[1], a[2]})
+		}
+	}
+	m["(*sync/atomic.Bool).Load"] = func(ex *Exec, fr *frame, a []Value) Value {
+		ex.preemptPoint(fr)
+		c := atomicPtr(ex, typedCell(ex, a[0]))
+		return ex.ts.Not(ex.ts.Eq((*c).(*Term), ex.ts.BVConst(0, 32)))
+	}
+	m["(*sync/atomic.Bool).Store"] = func(ex *Exec, fr *frame, a []Value) Value {
+		ex.preemptPoint(fr)
+		c := atomicPtr(ex, typedCell(ex, a[0]))
+		*c = ex.ts.Ite(a[1].(*Term), ex.ts.BVConst(1, 32), ex.ts.BVConst(0, 32))
+		return nil
 	}
 
 	// ---- errors / fmt ----
